@@ -520,3 +520,104 @@ Proof. intros o d fs. split; [apply parse_sound_l|apply parse_complete_l]. Qed.
 
 Lemma consumes_all_l : forall o d fs, parse_fields o 0 d = Ok fs -> fields_repr o 0 fs d.
 Proof. intros o d fs H. apply parse_sound_l in H. exact (proj2 H). Qed.
+
+(* ------------------------------------------------------------------ a tree that is too deep is refused with ErrMaxDepth *)
+(* [o'] = the same options with a MaxDepth large enough for the tree; the input is read under [o] *)
+Definition same_but_max (o o' : opts) : Prop :=
+  o_msg o = o_msg o' /\ o_packed o = o_packed o' /\ o_pelem o = o_pelem o'.
+
+Definition fits (o : opts) (lvl : N) (n : N) : bool := lvl + n <? o_max o.
+
+Lemma fits_cons : forall o lvl f fs,
+  fits o lvl (nest (f :: fs)) = fits o lvl (nest_field f) && fits o lvl (nest fs).
+Proof. intros. unfold fits. rewrite nest_cons. lia. Qed.
+
+Section TooDeep.
+Variables o o' : opts.
+Hypothesis Hsame : same_but_max o o'.
+
+Definition D_pf (fuel : nat) := forall depth fs d,
+  fields_repr o' depth fs d -> (2 * length d + 1 <= fuel)%nat -> depth < o_max o ->
+  pf_loop fuel o depth d = if fits o depth (nest fs) then Ok fs else Err EMaxDepth.
+Definition D_cv (fuel : nat) := forall depth f a r,
+  value_repr o' depth f a -> (2 * length (a ++ r) + 2 <= fuel)%nat -> depth < o_max o ->
+  consume_value fuel o depth (fnum f) (fwt f) (a ++ r) =
+    if fits o depth (nest_field f) then Ok (f, r) else Err EMaxDepth.
+Definition D_cg (fuel : nat) := forall depth gnum fs body e r,
+  fields_repr o' depth fs body -> tag_repr e gnum 4 ->
+  (2 * length (body ++ e ++ r) + 1 <= fuel)%nat -> depth < o_max o ->
+  cg_loop fuel o depth gnum (body ++ e ++ r) = if fits o depth (nest fs) then Ok (fs, r) else Err EMaxDepth.
+
+Lemma fits_zero : forall depth, depth < o_max o -> fits o depth 0 = true.
+Proof. intros. unfold fits. lia. Qed.
+
+Lemma deep_all : forall fuel, D_pf fuel /\ D_cv fuel /\ D_cg fuel.
+Proof.
+  destruct Hsame as (Hm & Hp & He).
+  induction fuel as [|fuel (IHpf & IHcv & IHcg)].
+  { split; [|split]; red; intros; simpl in *; lia. }
+  split; [|split].
+  - intros depth fs d H Hf Hd. destruct fs as [|g fs].
+    + simpl in H. subst. cbn [nest fold_right]. rewrite fits_zero by exact Hd. reflexivity.
+    + apply fields_repr_cons in H. destruct H as (a & b & -> & (t & x & -> & Ht & Hx) & Hb).
+      rewrite <- app_assoc. rewrite (pf_loop_step _ _ _ _ _ _ _ Ht). rewrite fwt_not_4.
+      pose proof (tag_repr_nonempty _ _ _ Ht) as Hn.
+      repeat rewrite app_length in Hf.
+      rewrite (IHcv depth g x b Hx) by (try rewrite app_length; lia).
+      rewrite fits_cons. destruct (fits o depth (nest_field g)); [|reflexivity].
+      rewrite (IHpf depth fs b Hb) by lia. cbn [andb]. destruct (fits o depth (nest fs)); reflexivity.
+  - intros depth f a r H Hf Hd. rewrite consume_value_S.
+    destruct f as [num v|num v|num v|num p|num fs|num et vs|num fs]; cbn [fnum fwt nest_field];
+      try rewrite (fits_zero depth Hd).
+    + cbn [value_repr] in H. rewrite (consume_varint_repr _ _ r H). reflexivity.
+    + cbn [value_repr] in H. unfold consume_fixed64. rewrite (consume_fixed_repr _ _ _ r H). reflexivity.
+    + cbn [value_repr] in H. unfold consume_fixed32. rewrite (consume_fixed_repr _ _ _ r H). reflexivity.
+    + cbn [value_repr] in H. destruct H as (Hpk & Hms & l & -> & Hl).
+      rewrite <- app_assoc. rewrite (consume_bytes_repr _ _ r Hl). rewrite Hp, Hm, Hpk, Hms. reflexivity.
+    + apply value_repr_msg in H. destruct H as (Hpk & Hms & _ & l & p & -> & Hl & Hfs).
+      rewrite <- app_assoc. rewrite (consume_bytes_repr _ _ r Hl). rewrite Hp, Hm, Hpk, Hms.
+      fold (nest fs). unfold fits at 1.
+      destruct (o_max o <=? depth + 1) eqn:EM.
+      * replace (depth + (1 + nest fs) <? o_max o) with false by lia. reflexivity.
+      * pose proof (is_varint_nonempty _ _ _ Hl) as Hn. repeat rewrite app_length in Hf.
+        rewrite (IHpf (depth + 1) fs p Hfs) by lia. unfold fits.
+        replace (depth + 1 + nest fs <? o_max o) with (depth + (1 + nest fs) <? o_max o) by lia.
+        destruct (depth + (1 + nest fs) <? o_max o); reflexivity.
+    + cbn [value_repr] in H. destruct H as (Hpk & Hl' & Het & l & p & -> & Hl & Hvs).
+      rewrite <- app_assoc. rewrite (consume_bytes_repr _ _ r Hl). rewrite Hp, He, Hpk, Hl'.
+      rewrite (unpack_packed_complete _ _ _ Het Hvs). reflexivity.
+    + apply value_repr_group in H. destruct H as (_ & body & e & -> & Hte & Hfs).
+      fold (nest fs). unfold fits at 1.
+      destruct (o_max o <=? depth + 1) eqn:EM.
+      * replace (depth + (1 + nest fs) <? o_max o) with false by lia. reflexivity.
+      * rewrite <- app_assoc. rewrite <- app_assoc in Hf.
+        rewrite (IHcg (depth + 1) num fs body e r Hfs Hte) by lia. unfold fits.
+        replace (depth + 1 + nest fs <? o_max o) with (depth + (1 + nest fs) <? o_max o) by lia.
+        destruct (depth + (1 + nest fs) <? o_max o); reflexivity.
+  - intros depth gnum fs body e r H Hte Hf Hd. destruct fs as [|g fs].
+    + simpl in H. subst body. cbn [app nest fold_right]. rewrite fits_zero by exact Hd.
+      rewrite (cg_loop_step _ _ _ _ _ _ _ _ Hte). cbn. rewrite N.eqb_refl. reflexivity.
+    + apply fields_repr_cons in H. destruct H as (a & b & -> & (t & x & -> & Ht & Hx) & Hb).
+      replace (((t ++ x) ++ b) ++ e ++ r) with (t ++ x ++ (b ++ e ++ r))
+        by (repeat rewrite <- app_assoc; reflexivity).
+      replace (((t ++ x) ++ b) ++ e ++ r) with (t ++ x ++ (b ++ e ++ r)) in Hf
+        by (repeat rewrite <- app_assoc; reflexivity).
+      rewrite (cg_loop_step _ _ _ _ _ _ _ _ Ht). rewrite fwt_not_4.
+      pose proof (tag_repr_nonempty _ _ _ Ht) as Hn.
+      rewrite app_length in Hf. rewrite (app_length x) in Hf.
+      rewrite (IHcv depth g x (b ++ e ++ r) Hx) by (try rewrite app_length; lia).
+      rewrite fits_cons. destruct (fits o depth (nest_field g)); [|reflexivity].
+      rewrite (IHcg depth gnum fs b e r Hb Hte) by lia. cbn [andb]. destruct (fits o depth (nest fs)); reflexivity.
+Qed.
+End TooDeep.
+
+Lemma too_deep_rejected_l : forall o o' fs,
+  same_but_max o o' -> wf_fields o' fs = true -> 0 < o_max o -> o_max o <= nest fs ->
+  parse_fields o 0 (encode_fields fs) = Err EMaxDepth.
+Proof.
+  intros o o' fs Hs Hw Hm Hd. apply encode_fields_repr in Hw. destruct Hw as [_ Hr].
+  unfold parse_fields. replace (o_max o <=? 0) with false by lia.
+  destruct (deep_all o o' Hs (fuel_for (encode_fields fs))) as (D & _ & _).
+  rewrite (D 0 fs (encode_fields fs) Hr); [|unfold fuel_for; lia|exact Hm].
+  unfold fits. replace (0 + nest fs <? o_max o) with false by lia. reflexivity.
+Qed.
